@@ -383,4 +383,45 @@ theorem publish_same_structure {α : Type} (m : LFilter) : ∀ (V G : Vars α),
         exact hnd.1 (by rw [← e]; exact List.mem_map_of_mem hcc))]
       rw [ih qs hrest hnd.2 (fun cc hcc => hvn cc (by simp [hcc])) (fun cc hcc => hm cc (by simp [hcc]))]
 
+
+/-! ### re-adding the broadcast input collections that the body's output lacks (lift.py:1019-1022) -/
+
+theorem dget_append_single {β : Type} (acc : List (String × β)) (x : String × β) (k : String) (h : k ≠ x.1) :
+    (dget (acc ++ [x]) k).isNone = (dget acc k).isNone := by
+  unfold dget
+  induction acc with
+  | nil =>
+    obtain ⟨kx, vx⟩ := x
+    have : (k == kx) = false := by simpa using h
+    simp [List.lookup_cons, this]
+  | cons p ps ih =>
+    obtain ⟨kp, vp⟩ := p
+    simp only [List.cons_append, List.lookup_cons]
+    cases (k == kp) <;> simp [ih]
+
+theorem reinject_eq {α : Type} : ∀ (bIn acc : Vars α), (bIn.map (·.1)).Nodup →
+    bIn.foldl (fun acc cc => if (dget acc cc.1).isSome then acc else acc ++ [cc]) acc =
+      acc ++ bIn.filter (fun cc => (dget acc cc.1).isNone) := by
+  intro bIn
+  induction bIn with
+  | nil => intro acc _; simp
+  | cons x xs ih =>
+    intro acc hnd
+    simp only [List.map_cons, List.nodup_cons] at hnd
+    simp only [List.foldl_cons, List.filter_cons]
+    cases hx : dget acc x.1 with
+    | some v =>
+      simp only [Option.isSome_some, if_true, Option.isNone_some, Bool.false_eq_true, if_false]
+      exact ih acc hnd.2
+    | none =>
+      simp only [Option.isSome_none, Bool.false_eq_true, if_false, Option.isNone_none, if_true]
+      rw [ih (acc ++ [x]) hnd.2]
+      have : xs.filter (fun cc => (dget (acc ++ [x]) cc.1).isNone) = xs.filter (fun cc => (dget acc cc.1).isNone) := by
+        apply List.filter_congr
+        intro cc hcc
+        apply dget_append_single
+        intro e
+        exact hnd.1 (by rw [← e]; exact List.mem_map_of_mem hcc)
+      rw [this]; simp
+
 end Flax.LiftLoop
